@@ -1,4 +1,86 @@
+//! vx-sched — checks for the scheduler properties C09 (DFS), C10 (random / URW), C11 (PCT).
+//! Engines: E3 (scheduler-automaton driver over exhaustively enumerated abstract trees) and E4
+//! (seed-interval enumerator).
+
+mod c09;
+mod c10;
+mod c11;
+mod mutants;
+mod par;
+mod pct_model;
+mod rec;
+mod tasks;
+mod tree;
+
+use vx::common::{finish, CheckCtx, Tier};
+
+fn usage() -> ! {
+    eprintln!("usage: vx-sched check C09|C10|C11 quick|thorough|--replay <file>");
+    std::process::exit(2)
+}
+
 fn main() {
-    eprintln!("MACHINERY-ERROR: not built yet");
-    std::process::exit(2);
+    let args: Vec<String> = std::env::args().collect();
+    if args.get(1).map(|s| s.as_str()) == Some("check") {
+        // the schedulers under test read these; the check chooses its seeds itself
+        std::env::remove_var("SHUTTLE_RANDOM_SEED");
+        std::env::remove_var("SHUTTLE_ALWAYS_PERSIST_SEED");
+    }
+    match args.get(1).map(|s| s.as_str()) {
+        Some("check") => {
+            let id = args.get(2).cloned().unwrap_or_default();
+            if !["C09", "C10", "C11"].contains(&id.as_str()) {
+                usage();
+            }
+            match args.get(3).map(|s| s.as_str()) {
+                Some("--replay") => {
+                    let path = args.get(4).unwrap_or_else(|| usage());
+                    let doc: serde_json::Value = match std::fs::read_to_string(path)
+                        .map_err(|e| e.to_string())
+                        .and_then(|s| serde_json::from_str(&s).map_err(|e| e.to_string()))
+                    {
+                        Ok(d) => d,
+                        Err(e) => {
+                            eprintln!("MACHINERY-ERROR: cannot load replay file {}: {}", path, e);
+                            std::process::exit(2)
+                        }
+                    };
+                    match id.as_str() {
+                        "C09" => c09::replay(&doc),
+                        "C10" => c10::replay(&doc),
+                        _ => c11::replay(&doc),
+                    }
+                    std::process::exit(0);
+                }
+                t => {
+                    let tier = match t {
+                        Some("thorough") => Tier::Thorough,
+                        Some("quick") => Tier::Quick,
+                        None => match std::env::var("VERIF_TIER").as_deref() {
+                            Ok("thorough") => Tier::Thorough,
+                            _ => Tier::Quick,
+                        },
+                        Some(_) => usage(),
+                    };
+                    let ctx = CheckCtx::new(&id, tier);
+                    let res = match id.as_str() {
+                        "C09" => c09::run(&ctx),
+                        "C10" => c10::run(&ctx),
+                        _ => c11::run(&ctx),
+                    };
+                    finish(&ctx, res)
+                }
+            }
+        }
+        Some("child") => {
+            let a: Vec<String> = args[2..].to_vec();
+            match a.first().map(|s| s.as_str()) {
+                Some("c09-integ") => c09::child_integration(a.get(1).map(|s| s == "thorough").unwrap_or(false)),
+                Some(k) if k.starts_with("c10-") => c10::child(&a),
+                Some(k) if k.starts_with("c11-") => c11::child(&a),
+                _ => usage(),
+            }
+        }
+        _ => usage(),
+    }
 }
